@@ -143,6 +143,33 @@ PROPS['C05'] = dict(
                       'feature:raw-control', 'feature:escape-run', 'ctx:key', 'ctx:ondemand-key', 'ctx:updatelazy-key'],
 )
 
+c04 = B('c04_numbers', 'c04_numbers.cpp', 'asan')
+c04p = B('c04_numbers', 'c04_numbers.cpp', 'prod')
+fz04 = B('fz_number', 'c04_numbers.cpp', 'fuzz')
+PROPS['C04'] = dict(
+    title='Numbers parse to the exact integer or the correctly rounded double',
+    units=[
+        U(c04, 'prng', 400000, 12000000, wq=4, wt=8, label='c04-asan'),
+        U(c04p, 'prng', 1000000, 40000000, wq=3, wt=6, label='c04-prod'),
+        U(c04, 'rc', 5000, 100000, wq=2, wt=2, label='c04-rc'),
+        F(fz04, 15, 600, wq=2, wt=2, label='fz_number', field='num', dict='fuzz/number.dict', max_len=400),
+    ],
+    harness_alias={'fz_number': 'c04_numbers'},
+    rule='cases: JSON number spellings from six strata - integers of 1..22 digits and the 2^63/2^64/10^19 boundaries; '
+         'mantissa(1..19 digits) x every decimal exponent -348..347 (table rows rotated by case index; rows touched reported); '
+         'exact midpoints between adjacent doubles (all binary exponents, subnormals) truncated to 17..770 digits and +-1 unit in '
+         'the last place; mantissas of 20..2000 digits followed by exponent/fraction/nothing; zeros in every spelling; '
+         'overflow/underflow boundaries - each spelled scientific / integer-mantissa / positional with e|E and +, at the root, '
+         'in an array, as an object value, at pad 0..40. Oracle: integer rule of the statement, else glibc strtod bits on the '
+         'identical spelling, strtod==inf => kParseErrorInfinity. Non-trivial: more than 15 significant digits or not a plain '
+         'integer. distinct = distinct pick sequences.',
+    min_evaluations=dict(quick=500000, thorough=10000000),
+    required_classes=['class:integer-boundary', 'class:mantissa-x-exp10', 'class:halfway', 'class:long-mantissa', 'class:zero',
+                      'class:range-boundary', 'halfway:exact', 'halfway:truncated+1ulp:subnormal'],
+    assumptions=['an error confined to the low 64-bit word of a power-of-ten table row affects ~2^-64 of inputs and is outside '
+                 'practical reach of search (DESIGN.md section 8)'],
+)
+
 
 def tool_versions():
     out = {}
